@@ -1006,6 +1006,10 @@ func runC05Conc(c *Case, out func(string)) {
 		if i+3 < len(oldLive) {
 			hi = append([]byte(oldLive[i+3]), '!')
 		}
+		// the keys the scans must show are (also) in the active memtable: rewritten before the scans start
+		for j := i + 1; j < len(oldLive) && j <= i+2; j++ {
+			e.Put([]byte(oldLive[j]), ref[oldLive[j]])
+		}
 		write := func(n int) {
 			switch n % 3 {
 			case 0:
